@@ -181,6 +181,14 @@ func cmdCheck(args []string) {
 	work, _ := os.MkdirTemp("", "govc-"+*prop)
 	defer os.RemoveAll(work)
 
+	e.frameSet = map[string]bool{}
+	for _, en := range spec.Entries {
+		if en.Mode == "frame" {
+			for _, fn := range e.matchFuncs(en.Func) {
+				e.frameSet[fnKey(fn)] = true
+			}
+		}
+	}
 	var reports []*unitReport
 	var units []*Unit
 	var problems []string
@@ -464,6 +472,9 @@ func (u *Unit) vacuityCheck(dir string, timeout time.Duration) string {
 	fn := filepath.Join(dir, sanitize(o.Name)+".smt2")
 	os.WriteFile(fn, []byte(sb.String()), 0o644)
 	r := runSolver(contextBackground(), solvers[0], fn, timeout)
+	if r.status == "unsat" && os.Getenv("GOVC_KEEPVAC") != "" {
+		os.WriteFile("/tmp/vacuity-"+sanitize(u.name)+".smt2", []byte(sb.String()), 0o644)
+	}
 	return r.status
 }
 
